@@ -125,7 +125,7 @@ WithRules(c, e) ==
 WithRedecl(c, e) == IF c.inh = "redecl" /\ e.name = "e3" THEN [e EXCEPT !.redecl = <<[name |-> "b1", of |-> "e2", ty |-> T("e2")]>>] ELSE e
 Valid0(c) ==
   [name |-> "m",
-   types |-> Types(c) \o ExtraTypes(c.ts),
+   types |-> Types(c) \o (IF c.inh = "single" THEN SelectSeq(ExtraTypes(c.ts), LAMBDA t : t.name # "lst_sel") ELSE ExtraTypes(c.ts)),
    ents |-> [i \in 1..Len(Names(c)) |->
                LET n == Names(c)[i] IN
                WithRedecl(c, WithRules(c, Ent(n, Supers(c, n), (n = "e1" /\ c.abs /\ c.inh \notin {"none"}), IF n = "e1" THEN RootExpr(c) ELSE NoTree,
